@@ -122,13 +122,14 @@ def body(ch, ctx):
     ctx.nontrivial(n > cl + 1 or d != G.ALL[0] or kind == "reopen")
     ctx.outcome((d.style, shape, n > cl + 1, kind))
     dbfn = ":memory:" if kind == "memory" else os.path.join(wd, "out.db")
-    kw = dict(keep_order=True, sort_attribute_values=sav, merge_strategy=strat, checklines=cl, verbose=False)
+    # sort_attribute_values is only named when True (unsorted is the documented default)
+    kw = dict(keep_order=True, merge_strategy=strat, checklines=cl, verbose=False, **(dict(sort_attribute_values=True) if sav else {}))
     db = gffutils.create_db(path, dbfn, **kw)
     observe(ctx, db, lines, texts, sig, "fresh", unsorted)
     first = dbutil.canon(db)
     if kind == "reopen":
         dbutil.close_db(db)
-        db = gffutils.FeatureDB(dbfn, keep_order=True, sort_attribute_values=sav)
+        db = gffutils.FeatureDB(dbfn, keep_order=True, **(dict(sort_attribute_values=True) if sav else {}))
         observe(ctx, db, lines, texts, sig, "reopened", unsorted)
         ctx.check(dbutil.canon(db) == first, "content-changed-by-reopen", sig)
     if unsorted:
